@@ -125,7 +125,13 @@ def alternatives(doc: dict, schema: Any) -> list[dict]:
         elif t == "string":
             out.append({"k": "str", "format": s.get("format")})
         elif t == "array":
-            out.append({"k": "array", "items": s.get("items", {})})
+            items = s.get("items", {})
+            if s.get("prefixItems"):
+                # 3.1 tuples: the generator decodes every element as "any of the listed item schemas" - a superset of
+                # the position-wise instances, for which the round trip has to hold all the same
+                members = list(s["prefixItems"]) + ([items] if "items" in s else [])
+                items = members[0] if len(members) == 1 else {"anyOf": members}
+            out.append({"k": "array", "items": items})
         elif t == "object" or (t is None and s.get("properties")):
             out.append({"k": "object", "schema": merged_object(doc, s), "ref": is_ref})
         elif t is None:
@@ -679,7 +685,7 @@ def _req_condition(doc, package, path, method, op, ep, alias, list_max, str_max,
         bodies = list(ep.bodies)
         # the media types come from the *document*: the i-th media type the generator supports is the i-th body, and
         # it has to be sent under exactly the key the document uses (parameters such as "; charset=utf-8" included)
-        doc_cts = [ct for ct in (rb.get("content") or {}) if _body_kind_of(ct, OVERRIDES) is not None]
+        doc_cts = [ct for ct, mt in (rb.get("content") or {}).items() if _body_kind_of(ct, OVERRIDES) is not None and isinstance(mt, dict) and mt.get("schema") is not None]
         if len(doc_cts) != len(bodies):
             fn = f"req_{alias[3:]}"
             why = f"{method.upper()} {path} declares the supported request media types {doc_cts}, the generated function handles {[b.content_type for b in bodies]}"
